@@ -34,6 +34,10 @@ fn families(rng: &mut SplitMix64, big: u64) -> Vec<(String, u64, u64, u64, u64)>
         ("tiny-vs-big".into(), 0, 1, 0, big),
         ("one-two".into(), 0, 1, 0, 2),
         ("shifted".into(), 0, n, n / 10, n + n / 10),
+        // disjoint sets of unrelated sizes (no register equal: the closed forms sit at 0 up to rounding)
+        ("disjoint-unequal".into(), 0, rng.range(50, 4000), 1_000_000, 1_000_000 + rng.range(50, 40000)),
+        ("disjoint-unequal".into(), 0, rng.range(1000, 40000), 1_000_000, 1_000_000 + rng.range(10, 4000)),
+        ("disjoint-unequal".into(), 0, rng.range(1, 30), 1_000_000, 1_000_000 + rng.range(1, 30000)),
     ]
 }
 
@@ -77,6 +81,7 @@ pub fn cases(args: &[String]) {
     std::panic::set_hook(Box::new(|_| {}));
     let mut out = Vec::new();
     for r in 0..rounds {
+        crate::util::tick_idx(r as u64, serde_json::Value::Null);
         for (b, a, q, ty) in [(1.001f64, 20.0f64, 65534u64, "u16"), (1.2, 20.0, 400, "u16"), (2.0, 20.0, 62, "u32")] {
             let m = [16u64, 64, 256][(r % 3) as usize];
             for (fam, lo1, hi1, lo2, hi2) in families(&mut rng, big) {
